@@ -165,6 +165,12 @@ def value_op(op, t, t2, case):
         return copy.deepcopy(t)
     if op == "rawCopy":
         return t.copy()
+    if op == "prune":            # "create a new fiber by pruning": keeps every other element
+        return root.prune(lambda i, c, p: i % 2 == 0)
+    if op == "project":
+        return root.project(trans_fn=lambda c: c + case["step"])
+    if op == "getRange":         # deprecated front end of project(interval=)
+        return root.getRange(0, size=4 + case["step"])
     if op == "nonEmpty":
         return root.nonEmpty()
     if op == "fromFiberOwned":
